@@ -1,0 +1,149 @@
+//go:build verif
+
+// Contracts for deductive verification (read by /verif/govc). Comment-only: this file adds no code.
+package did
+
+// InitGenesis imports the module state; with pairwise distinct keys every listed record is stored as listed
+//@ func InitGenesis(ctx, k, genState)
+//@   modifies *
+//@   nopanic [C02.genesis.did.nopanic]
+//@   ensures [C18.init.did.accountlist] (forall a int, b int :: 0 <= a && a < b && b < len(genState.AccountListList) ==> genState.AccountListList[a].Did != genState.AccountListList[b].Did) ==>
+//@       forall j int :: 0 <= j && j < len(genState.AccountListList) ==> has(AccountList, genState.AccountListList[j].Did) && AccountList[genState.AccountListList[j].Did] == genState.AccountListList[j]
+//@   ensures [C18.init.did.accountauth] (forall a int, b int :: 0 <= a && a < b && b < len(genState.AccountAuthList) ==> genState.AccountAuthList[a].AccountDid != genState.AccountAuthList[b].AccountDid) ==>
+//@       forall j int :: 0 <= j && j < len(genState.AccountAuthList) ==> has(AccountAuth, genState.AccountAuthList[j].AccountDid) && AccountAuth[genState.AccountAuthList[j].AccountDid] == genState.AccountAuthList[j]
+//@   ensures [C18.init.did.siddocument] (forall a int, b int :: 0 <= a && a < b && b < len(genState.SidDocumentList) ==> genState.SidDocumentList[a].VersionId != genState.SidDocumentList[b].VersionId) ==>
+//@       forall j int :: 0 <= j && j < len(genState.SidDocumentList) ==> has(SidDocument, genState.SidDocumentList[j].VersionId) && SidDocument[genState.SidDocumentList[j].VersionId] == genState.SidDocumentList[j]
+//@   ensures [C18.init.did.siddocumentversion] (forall a int, b int :: 0 <= a && a < b && b < len(genState.SidDocumentVersionList) ==> genState.SidDocumentVersionList[a].DocId != genState.SidDocumentVersionList[b].DocId) ==>
+//@       forall j int :: 0 <= j && j < len(genState.SidDocumentVersionList) ==> has(SidDocumentVersion, genState.SidDocumentVersionList[j].DocId) && SidDocumentVersion[genState.SidDocumentVersionList[j].DocId] == genState.SidDocumentVersionList[j]
+//@   ensures [C18.init.did.pastseeds] (forall a int, b int :: 0 <= a && a < b && b < len(genState.PastSeedsList) ==> genState.PastSeedsList[a].Did != genState.PastSeedsList[b].Did) ==>
+//@       forall j int :: 0 <= j && j < len(genState.PastSeedsList) ==> has(PastSeeds, genState.PastSeedsList[j].Did) && PastSeeds[genState.PastSeedsList[j].Did] == genState.PastSeedsList[j]
+//@   ensures [C18.init.did.paymentaddress] (forall a int, b int :: 0 <= a && a < b && b < len(genState.PaymentAddressList) ==> genState.PaymentAddressList[a].Did != genState.PaymentAddressList[b].Did) ==>
+//@       forall j int :: 0 <= j && j < len(genState.PaymentAddressList) ==> has(PaymentAddress, genState.PaymentAddressList[j].Did) && PaymentAddress[genState.PaymentAddressList[j].Did] == genState.PaymentAddressList[j]
+//@   ensures [C18.init.did.accountid] (forall a int, b int :: 0 <= a && a < b && b < len(genState.AccountIdList) ==> genState.AccountIdList[a].AccountDid != genState.AccountIdList[b].AccountDid) ==>
+//@       forall j int :: 0 <= j && j < len(genState.AccountIdList) ==> has(AccountId, genState.AccountIdList[j].AccountDid) && AccountId[genState.AccountIdList[j].AccountDid] == genState.AccountIdList[j]
+//@   ensures [C18.init.did.did] (forall a int, b int :: 0 <= a && a < b && b < len(genState.DidList) ==> genState.DidList[a].AccountId != genState.DidList[b].AccountId) ==>
+//@       forall j int :: 0 <= j && j < len(genState.DidList) ==> has(Did, genState.DidList[j].AccountId) && Did[genState.DidList[j].AccountId] == genState.DidList[j]
+//@   ensures [C18.init.did.kid] (forall a int, b int :: 0 <= a && a < b && b < len(genState.KidList) ==> genState.KidList[a].Address != genState.KidList[b].Address) ==>
+//@       forall j int :: 0 <= j && j < len(genState.KidList) ==> has(Kid, genState.KidList[j].Address) && Kid[genState.KidList[j].Address] == genState.KidList[j]
+//@   ensures [C18.init.did.didbalances] (forall a int, b int :: 0 <= a && a < b && b < len(genState.DidBalancesList) ==> genState.DidBalancesList[a].Did != genState.DidBalancesList[b].Did) ==>
+//@       forall j int :: 0 <= j && j < len(genState.DidBalancesList) ==> has(DidBalances, genState.DidBalancesList[j].Did) && DidBalances[genState.DidBalancesList[j].Did] == genState.DidBalancesList[j]
+//@   loop L1 invariant -1 <= rangeindex && rangeindex < len(genState0.AccountListList)
+//@   loop L1 invariant (forall a int, b int :: 0 <= a && a < b && b < len(genState0.AccountListList) ==> genState0.AccountListList[a].Did != genState0.AccountListList[b].Did) ==>
+//@       forall j int :: 0 <= j && j <= rangeindex ==> has(AccountList, genState0.AccountListList[j].Did) && AccountList[genState0.AccountListList[j].Did] == genState0.AccountListList[j]
+//@   loop L1 decreases [C02.genesis.term] len(genState0.AccountListList) - rangeindex
+//@   loop L2 invariant -1 <= rangeindex && rangeindex < len(genState0.AccountAuthList)
+//@   loop L2 invariant (forall a int, b int :: 0 <= a && a < b && b < len(genState0.AccountAuthList) ==> genState0.AccountAuthList[a].AccountDid != genState0.AccountAuthList[b].AccountDid) ==>
+//@       forall j int :: 0 <= j && j <= rangeindex ==> has(AccountAuth, genState0.AccountAuthList[j].AccountDid) && AccountAuth[genState0.AccountAuthList[j].AccountDid] == genState0.AccountAuthList[j]
+//@   loop L2 decreases [C02.genesis.term] len(genState0.AccountAuthList) - rangeindex
+//@   loop L2 invariant forall c string :: AccountList[c] == entry(AccountList[c]) && (has(AccountList, c) <==> entry(has(AccountList, c)))
+//@   loop L3 invariant -1 <= rangeindex && rangeindex < len(genState0.SidDocumentList)
+//@   loop L3 invariant (forall a int, b int :: 0 <= a && a < b && b < len(genState0.SidDocumentList) ==> genState0.SidDocumentList[a].VersionId != genState0.SidDocumentList[b].VersionId) ==>
+//@       forall j int :: 0 <= j && j <= rangeindex ==> has(SidDocument, genState0.SidDocumentList[j].VersionId) && SidDocument[genState0.SidDocumentList[j].VersionId] == genState0.SidDocumentList[j]
+//@   loop L3 decreases [C02.genesis.term] len(genState0.SidDocumentList) - rangeindex
+//@   loop L3 invariant forall c string :: AccountList[c] == entry(AccountList[c]) && (has(AccountList, c) <==> entry(has(AccountList, c)))
+//@   loop L3 invariant forall c string :: AccountAuth[c] == entry(AccountAuth[c]) && (has(AccountAuth, c) <==> entry(has(AccountAuth, c)))
+//@   loop L4 invariant -1 <= rangeindex && rangeindex < len(genState0.SidDocumentVersionList)
+//@   loop L4 invariant (forall a int, b int :: 0 <= a && a < b && b < len(genState0.SidDocumentVersionList) ==> genState0.SidDocumentVersionList[a].DocId != genState0.SidDocumentVersionList[b].DocId) ==>
+//@       forall j int :: 0 <= j && j <= rangeindex ==> has(SidDocumentVersion, genState0.SidDocumentVersionList[j].DocId) && SidDocumentVersion[genState0.SidDocumentVersionList[j].DocId] == genState0.SidDocumentVersionList[j]
+//@   loop L4 decreases [C02.genesis.term] len(genState0.SidDocumentVersionList) - rangeindex
+//@   loop L4 invariant forall c string :: AccountList[c] == entry(AccountList[c]) && (has(AccountList, c) <==> entry(has(AccountList, c)))
+//@   loop L4 invariant forall c string :: AccountAuth[c] == entry(AccountAuth[c]) && (has(AccountAuth, c) <==> entry(has(AccountAuth, c)))
+//@   loop L4 invariant forall c string :: SidDocument[c] == entry(SidDocument[c]) && (has(SidDocument, c) <==> entry(has(SidDocument, c)))
+//@   loop L5 invariant -1 <= rangeindex && rangeindex < len(genState0.PastSeedsList)
+//@   loop L5 invariant (forall a int, b int :: 0 <= a && a < b && b < len(genState0.PastSeedsList) ==> genState0.PastSeedsList[a].Did != genState0.PastSeedsList[b].Did) ==>
+//@       forall j int :: 0 <= j && j <= rangeindex ==> has(PastSeeds, genState0.PastSeedsList[j].Did) && PastSeeds[genState0.PastSeedsList[j].Did] == genState0.PastSeedsList[j]
+//@   loop L5 decreases [C02.genesis.term] len(genState0.PastSeedsList) - rangeindex
+//@   loop L5 invariant forall c string :: AccountList[c] == entry(AccountList[c]) && (has(AccountList, c) <==> entry(has(AccountList, c)))
+//@   loop L5 invariant forall c string :: AccountAuth[c] == entry(AccountAuth[c]) && (has(AccountAuth, c) <==> entry(has(AccountAuth, c)))
+//@   loop L5 invariant forall c string :: SidDocument[c] == entry(SidDocument[c]) && (has(SidDocument, c) <==> entry(has(SidDocument, c)))
+//@   loop L5 invariant forall c string :: SidDocumentVersion[c] == entry(SidDocumentVersion[c]) && (has(SidDocumentVersion, c) <==> entry(has(SidDocumentVersion, c)))
+//@   loop L6 invariant -1 <= rangeindex && rangeindex < len(genState0.PaymentAddressList)
+//@   loop L6 invariant (forall a int, b int :: 0 <= a && a < b && b < len(genState0.PaymentAddressList) ==> genState0.PaymentAddressList[a].Did != genState0.PaymentAddressList[b].Did) ==>
+//@       forall j int :: 0 <= j && j <= rangeindex ==> has(PaymentAddress, genState0.PaymentAddressList[j].Did) && PaymentAddress[genState0.PaymentAddressList[j].Did] == genState0.PaymentAddressList[j]
+//@   loop L6 decreases [C02.genesis.term] len(genState0.PaymentAddressList) - rangeindex
+//@   loop L6 invariant forall c string :: AccountList[c] == entry(AccountList[c]) && (has(AccountList, c) <==> entry(has(AccountList, c)))
+//@   loop L6 invariant forall c string :: AccountAuth[c] == entry(AccountAuth[c]) && (has(AccountAuth, c) <==> entry(has(AccountAuth, c)))
+//@   loop L6 invariant forall c string :: SidDocument[c] == entry(SidDocument[c]) && (has(SidDocument, c) <==> entry(has(SidDocument, c)))
+//@   loop L6 invariant forall c string :: SidDocumentVersion[c] == entry(SidDocumentVersion[c]) && (has(SidDocumentVersion, c) <==> entry(has(SidDocumentVersion, c)))
+//@   loop L6 invariant forall c string :: PastSeeds[c] == entry(PastSeeds[c]) && (has(PastSeeds, c) <==> entry(has(PastSeeds, c)))
+//@   loop L7 invariant -1 <= rangeindex && rangeindex < len(genState0.AccountIdList)
+//@   loop L7 invariant (forall a int, b int :: 0 <= a && a < b && b < len(genState0.AccountIdList) ==> genState0.AccountIdList[a].AccountDid != genState0.AccountIdList[b].AccountDid) ==>
+//@       forall j int :: 0 <= j && j <= rangeindex ==> has(AccountId, genState0.AccountIdList[j].AccountDid) && AccountId[genState0.AccountIdList[j].AccountDid] == genState0.AccountIdList[j]
+//@   loop L7 decreases [C02.genesis.term] len(genState0.AccountIdList) - rangeindex
+//@   loop L7 invariant forall c string :: AccountList[c] == entry(AccountList[c]) && (has(AccountList, c) <==> entry(has(AccountList, c)))
+//@   loop L7 invariant forall c string :: AccountAuth[c] == entry(AccountAuth[c]) && (has(AccountAuth, c) <==> entry(has(AccountAuth, c)))
+//@   loop L7 invariant forall c string :: SidDocument[c] == entry(SidDocument[c]) && (has(SidDocument, c) <==> entry(has(SidDocument, c)))
+//@   loop L7 invariant forall c string :: SidDocumentVersion[c] == entry(SidDocumentVersion[c]) && (has(SidDocumentVersion, c) <==> entry(has(SidDocumentVersion, c)))
+//@   loop L7 invariant forall c string :: PastSeeds[c] == entry(PastSeeds[c]) && (has(PastSeeds, c) <==> entry(has(PastSeeds, c)))
+//@   loop L7 invariant forall c string :: PaymentAddress[c] == entry(PaymentAddress[c]) && (has(PaymentAddress, c) <==> entry(has(PaymentAddress, c)))
+//@   loop L8 invariant -1 <= rangeindex && rangeindex < len(genState0.DidList)
+//@   loop L8 invariant (forall a int, b int :: 0 <= a && a < b && b < len(genState0.DidList) ==> genState0.DidList[a].AccountId != genState0.DidList[b].AccountId) ==>
+//@       forall j int :: 0 <= j && j <= rangeindex ==> has(Did, genState0.DidList[j].AccountId) && Did[genState0.DidList[j].AccountId] == genState0.DidList[j]
+//@   loop L8 decreases [C02.genesis.term] len(genState0.DidList) - rangeindex
+//@   loop L8 invariant forall c string :: AccountList[c] == entry(AccountList[c]) && (has(AccountList, c) <==> entry(has(AccountList, c)))
+//@   loop L8 invariant forall c string :: AccountAuth[c] == entry(AccountAuth[c]) && (has(AccountAuth, c) <==> entry(has(AccountAuth, c)))
+//@   loop L8 invariant forall c string :: SidDocument[c] == entry(SidDocument[c]) && (has(SidDocument, c) <==> entry(has(SidDocument, c)))
+//@   loop L8 invariant forall c string :: SidDocumentVersion[c] == entry(SidDocumentVersion[c]) && (has(SidDocumentVersion, c) <==> entry(has(SidDocumentVersion, c)))
+//@   loop L8 invariant forall c string :: PastSeeds[c] == entry(PastSeeds[c]) && (has(PastSeeds, c) <==> entry(has(PastSeeds, c)))
+//@   loop L8 invariant forall c string :: PaymentAddress[c] == entry(PaymentAddress[c]) && (has(PaymentAddress, c) <==> entry(has(PaymentAddress, c)))
+//@   loop L8 invariant forall c string :: AccountId[c] == entry(AccountId[c]) && (has(AccountId, c) <==> entry(has(AccountId, c)))
+//@   loop L9 invariant -1 <= rangeindex && rangeindex < len(genState0.KidList)
+//@   loop L9 invariant (forall a int, b int :: 0 <= a && a < b && b < len(genState0.KidList) ==> genState0.KidList[a].Address != genState0.KidList[b].Address) ==>
+//@       forall j int :: 0 <= j && j <= rangeindex ==> has(Kid, genState0.KidList[j].Address) && Kid[genState0.KidList[j].Address] == genState0.KidList[j]
+//@   loop L9 decreases [C02.genesis.term] len(genState0.KidList) - rangeindex
+//@   loop L9 invariant forall c string :: AccountList[c] == entry(AccountList[c]) && (has(AccountList, c) <==> entry(has(AccountList, c)))
+//@   loop L9 invariant forall c string :: AccountAuth[c] == entry(AccountAuth[c]) && (has(AccountAuth, c) <==> entry(has(AccountAuth, c)))
+//@   loop L9 invariant forall c string :: SidDocument[c] == entry(SidDocument[c]) && (has(SidDocument, c) <==> entry(has(SidDocument, c)))
+//@   loop L9 invariant forall c string :: SidDocumentVersion[c] == entry(SidDocumentVersion[c]) && (has(SidDocumentVersion, c) <==> entry(has(SidDocumentVersion, c)))
+//@   loop L9 invariant forall c string :: PastSeeds[c] == entry(PastSeeds[c]) && (has(PastSeeds, c) <==> entry(has(PastSeeds, c)))
+//@   loop L9 invariant forall c string :: PaymentAddress[c] == entry(PaymentAddress[c]) && (has(PaymentAddress, c) <==> entry(has(PaymentAddress, c)))
+//@   loop L9 invariant forall c string :: AccountId[c] == entry(AccountId[c]) && (has(AccountId, c) <==> entry(has(AccountId, c)))
+//@   loop L9 invariant forall c string :: Did[c] == entry(Did[c]) && (has(Did, c) <==> entry(has(Did, c)))
+//@   loop L10 invariant -1 <= rangeindex && rangeindex < len(genState0.DidBalancesList)
+//@   loop L10 invariant (forall a int, b int :: 0 <= a && a < b && b < len(genState0.DidBalancesList) ==> genState0.DidBalancesList[a].Did != genState0.DidBalancesList[b].Did) ==>
+//@       forall j int :: 0 <= j && j <= rangeindex ==> has(DidBalances, genState0.DidBalancesList[j].Did) && DidBalances[genState0.DidBalancesList[j].Did] == genState0.DidBalancesList[j]
+//@   loop L10 decreases [C02.genesis.term] len(genState0.DidBalancesList) - rangeindex
+//@   loop L10 invariant forall c string :: AccountList[c] == entry(AccountList[c]) && (has(AccountList, c) <==> entry(has(AccountList, c)))
+//@   loop L10 invariant forall c string :: AccountAuth[c] == entry(AccountAuth[c]) && (has(AccountAuth, c) <==> entry(has(AccountAuth, c)))
+//@   loop L10 invariant forall c string :: SidDocument[c] == entry(SidDocument[c]) && (has(SidDocument, c) <==> entry(has(SidDocument, c)))
+//@   loop L10 invariant forall c string :: SidDocumentVersion[c] == entry(SidDocumentVersion[c]) && (has(SidDocumentVersion, c) <==> entry(has(SidDocumentVersion, c)))
+//@   loop L10 invariant forall c string :: PastSeeds[c] == entry(PastSeeds[c]) && (has(PastSeeds, c) <==> entry(has(PastSeeds, c)))
+//@   loop L10 invariant forall c string :: PaymentAddress[c] == entry(PaymentAddress[c]) && (has(PaymentAddress, c) <==> entry(has(PaymentAddress, c)))
+//@   loop L10 invariant forall c string :: AccountId[c] == entry(AccountId[c]) && (has(AccountId, c) <==> entry(has(AccountId, c)))
+//@   loop L10 invariant forall c string :: Did[c] == entry(Did[c]) && (has(Did, c) <==> entry(has(Did, c)))
+//@   loop L10 invariant forall c string :: Kid[c] == entry(Kid[c]) && (has(Kid, c) <==> entry(has(Kid, c)))
+
+// ExportGenesis lists every record of every store of the module exactly as stored
+//@ func ExportGenesis(ctx, k) (genesis)
+//@   modifies nothing
+//@   ensures [C18.export.did.nonnil] genesis != nil
+//@   ensures [C18.export.did.accountlist] (forall c string :: has(AccountList, c) ==> contains(genesis.AccountListList, AccountList[c]))
+//@       && (forall j int :: 0 <= j && j < len(genesis.AccountListList) ==> has(AccountList, genesis.AccountListList[j].Did) && AccountList[genesis.AccountListList[j].Did] == genesis.AccountListList[j])
+//@       && (forall a int, b int :: 0 <= a && a < b && b < len(genesis.AccountListList) ==> genesis.AccountListList[a].Did != genesis.AccountListList[b].Did)
+//@   ensures [C18.export.did.accountauth] (forall c string :: has(AccountAuth, c) ==> contains(genesis.AccountAuthList, AccountAuth[c]))
+//@       && (forall j int :: 0 <= j && j < len(genesis.AccountAuthList) ==> has(AccountAuth, genesis.AccountAuthList[j].AccountDid) && AccountAuth[genesis.AccountAuthList[j].AccountDid] == genesis.AccountAuthList[j])
+//@       && (forall a int, b int :: 0 <= a && a < b && b < len(genesis.AccountAuthList) ==> genesis.AccountAuthList[a].AccountDid != genesis.AccountAuthList[b].AccountDid)
+//@   ensures [C18.export.did.siddocument] (forall c string :: has(SidDocument, c) ==> contains(genesis.SidDocumentList, SidDocument[c]))
+//@       && (forall j int :: 0 <= j && j < len(genesis.SidDocumentList) ==> has(SidDocument, genesis.SidDocumentList[j].VersionId) && SidDocument[genesis.SidDocumentList[j].VersionId] == genesis.SidDocumentList[j])
+//@       && (forall a int, b int :: 0 <= a && a < b && b < len(genesis.SidDocumentList) ==> genesis.SidDocumentList[a].VersionId != genesis.SidDocumentList[b].VersionId)
+//@   ensures [C18.export.did.siddocumentversion] (forall c string :: has(SidDocumentVersion, c) ==> contains(genesis.SidDocumentVersionList, SidDocumentVersion[c]))
+//@       && (forall j int :: 0 <= j && j < len(genesis.SidDocumentVersionList) ==> has(SidDocumentVersion, genesis.SidDocumentVersionList[j].DocId) && SidDocumentVersion[genesis.SidDocumentVersionList[j].DocId] == genesis.SidDocumentVersionList[j])
+//@       && (forall a int, b int :: 0 <= a && a < b && b < len(genesis.SidDocumentVersionList) ==> genesis.SidDocumentVersionList[a].DocId != genesis.SidDocumentVersionList[b].DocId)
+//@   ensures [C18.export.did.pastseeds] (forall c string :: has(PastSeeds, c) ==> contains(genesis.PastSeedsList, PastSeeds[c]))
+//@       && (forall j int :: 0 <= j && j < len(genesis.PastSeedsList) ==> has(PastSeeds, genesis.PastSeedsList[j].Did) && PastSeeds[genesis.PastSeedsList[j].Did] == genesis.PastSeedsList[j])
+//@       && (forall a int, b int :: 0 <= a && a < b && b < len(genesis.PastSeedsList) ==> genesis.PastSeedsList[a].Did != genesis.PastSeedsList[b].Did)
+//@   ensures [C18.export.did.paymentaddress] (forall c string :: has(PaymentAddress, c) ==> contains(genesis.PaymentAddressList, PaymentAddress[c]))
+//@       && (forall j int :: 0 <= j && j < len(genesis.PaymentAddressList) ==> has(PaymentAddress, genesis.PaymentAddressList[j].Did) && PaymentAddress[genesis.PaymentAddressList[j].Did] == genesis.PaymentAddressList[j])
+//@       && (forall a int, b int :: 0 <= a && a < b && b < len(genesis.PaymentAddressList) ==> genesis.PaymentAddressList[a].Did != genesis.PaymentAddressList[b].Did)
+//@   ensures [C18.export.did.accountid] (forall c string :: has(AccountId, c) ==> contains(genesis.AccountIdList, AccountId[c]))
+//@       && (forall j int :: 0 <= j && j < len(genesis.AccountIdList) ==> has(AccountId, genesis.AccountIdList[j].AccountDid) && AccountId[genesis.AccountIdList[j].AccountDid] == genesis.AccountIdList[j])
+//@       && (forall a int, b int :: 0 <= a && a < b && b < len(genesis.AccountIdList) ==> genesis.AccountIdList[a].AccountDid != genesis.AccountIdList[b].AccountDid)
+//@   ensures [C18.export.did.did] (forall c string :: has(Did, c) ==> contains(genesis.DidList, Did[c]))
+//@       && (forall j int :: 0 <= j && j < len(genesis.DidList) ==> has(Did, genesis.DidList[j].AccountId) && Did[genesis.DidList[j].AccountId] == genesis.DidList[j])
+//@       && (forall a int, b int :: 0 <= a && a < b && b < len(genesis.DidList) ==> genesis.DidList[a].AccountId != genesis.DidList[b].AccountId)
+//@   ensures [C18.export.did.kid] (forall c string :: has(Kid, c) ==> contains(genesis.KidList, Kid[c]))
+//@       && (forall j int :: 0 <= j && j < len(genesis.KidList) ==> has(Kid, genesis.KidList[j].Address) && Kid[genesis.KidList[j].Address] == genesis.KidList[j])
+//@       && (forall a int, b int :: 0 <= a && a < b && b < len(genesis.KidList) ==> genesis.KidList[a].Address != genesis.KidList[b].Address)
+//@   ensures [C18.export.did.didbalances] (forall c string :: has(DidBalances, c) ==> contains(genesis.DidBalancesList, DidBalances[c]))
+//@       && (forall j int :: 0 <= j && j < len(genesis.DidBalancesList) ==> has(DidBalances, genesis.DidBalancesList[j].Did) && DidBalances[genesis.DidBalancesList[j].Did] == genesis.DidBalancesList[j])
+//@       && (forall a int, b int :: 0 <= a && a < b && b < len(genesis.DidBalancesList) ==> genesis.DidBalancesList[a].Did != genesis.DidBalancesList[b].Did)
